@@ -34,7 +34,8 @@ class C04(Oracle):
             "fmt": rng.choice(["json", "xml"]),
         }
         steps, partners = rng.randrange(6, 30), rng.randrange(5, 10)
-        return {"profile": prof, "steps": steps, "partners": partners, "total_steps": steps + partners + 60}
+        return {"profile": prof, "steps": steps, "partners": partners, "total_steps": steps + partners + 64,
+                "cli_pairs": rng.choice([0, 0, 2])}
 
     def next_op(self, gen, world, i):
         nbuild = self.cfg["steps"]
@@ -89,6 +90,11 @@ class C04(Oracle):
                 return ["eq", base, st["twin"]]
             a, b = st["pairs"].pop()
             return ["eq", a, b]
+        if st.get("cli", 0) < self.cfg.get("cli_pairs", 0):
+            st["cli"] = st.get("cli", 0) + 1
+            hs = [h for h in list(gen.docs) + st["partners"]]
+            return ["compare_cli", rng.choice(hs), rng.choice(hs), rng.choice(["json", "xml"]),
+                    rng.choice(["json", "xml"])]
         if st["recpairs"] > 0:
             st["recpairs"] -= 1
             hs = list(gen.docs) + st["partners"]
@@ -136,6 +142,14 @@ class C04(Oracle):
             self.chk_eq(w, op, out)
         elif k == "req" and out.status != "skip":
             self.chk_req(w, op, out)
+        elif k == "compare_cli" and out.status == "ok":
+            code, da, db = out.result
+            ref = refmodel.ref_eq_document(da, db)
+            self.count("prov_compare_runs")
+            self.probe("prov_compare_equal" if ref else "prov_compare_different")
+            if code not in (0, 1) or (code == 0) != ref:
+                raise Violation("C04", "prov-compare", "exit-status",
+                                {"operation": op, "exit_status": code, "reference_equal": ref})
 
     def final(self, w):
         # transitivity over every triple of compared documents
